@@ -781,9 +781,7 @@ cache_harness! {
 // C18: colliding keys at cache level
 // ------------------------------------------------------------------------------------------------
 
-cache_harness! {
-    [kani::unwind(6)]
-    fn c18_cache_isolation() {
+fn cache_isolation(op: u8) {
         // key1 resident under (index, c1), key2 maps to the same index with conflict c2 not in {0, c1}
         let cfg = any_cfg();
         let now = clock::set_nd(1000, th::SECS_MAX);
@@ -796,12 +794,11 @@ cache_harness! {
         let charge = nd::any_i64_in(0, COST_MAX);
         let costs = slfu_from([Some((idx, charge)), None, None], nd::any_i64_in(1, COST_MAX));
         let mut p = park(CollidingKb, store, any_tinylfu(1, 6), costs, cfg);
-        let op = nd::any_u8_in(0, 2);
         if op == 0 {
             vassert!(p.cache.get(&k2).is_none(), "a lookup of the colliding key does not read the other key's value");
             vassert!(p.cache.get_mut(&k2).is_none(), "get_mut of the colliding key does not reach the other key's value");
             vassert!(p.cache.get_ttl(&k2).is_none(), "get_ttl of the colliding key reports nothing");
-            vcover!(true, "lookups");
+            vcover!(true, "[lookup] lookups");
         } else if op == 1 {
             let item = p.cache.try_update(k2, 1, nd::any_i64_in(0, COST_MAX), any_duration(4), false).unwrap();
             vassert!(raw(&p.store, idx) == Some(e), "an insert of the colliding key does not overwrite the other key's value or TTL");
@@ -814,16 +811,34 @@ cache_harness! {
             } else {
                 vassert!(false, "a colliding insert queues a New item");
             }
-            vcover!(true, "colliding insert");
+            vcover!(true, "[insert] colliding insert");
         } else {
             vassert!(p.cache.try_remove(&k2).is_ok(), "remove of the colliding key returns Ok");
             vassert!(raw(&p.store, idx) == Some(e), "remove of the colliding key does not remove the other key's value");
             vassert!(p.process_one_mask(M_DELETE), "the queued Delete is processed");
             vassert!(raw(&p.store, idx) == Some(e) && p.cb.all() == 0, "processing the colliding Delete leaves the resident value in place, no callback");
             vassert!(p.sp_ok(idx), "the resident key is still charged after a colliding remove (resident <=> charged)");
-            vcover!(true, "colliding remove");
+            vcover!(true, "[remove] colliding remove");
         }
         std::mem::forget(p);
+}
+
+cache_harness! {
+    [kani::unwind(6)]
+    fn c18_cache_isolation_lookup() {
+        cache_isolation(0);
+    }
+}
+cache_harness! {
+    [kani::unwind(6)]
+    fn c18_cache_isolation_insert() {
+        cache_isolation(1);
+    }
+}
+cache_harness! {
+    [kani::unwind(6)]
+    fn c18_cache_isolation_remove() {
+        cache_isolation(2);
     }
 }
 
@@ -847,29 +862,43 @@ fn random_state_stub() -> std::collections::hash_map::RandomState {
     unsafe { std::mem::zeroed() }
 }
 
-cache_harness! {
-    [kani::unwind(6),
-     kani::stub(std::thread::spawn, spawn_stub),
-     kani::stub(std::collections::hash_map::RandomState::new, random_state_stub)]
-    fn c20_finalize_rejects_zero() {
-        let n = nd::any_usize();
-        let mc = nd::any_i64();
-        let bs = nd::any_usize();
-        nd::assume(n == 0 || mc == 0 || bs == 0);
-        let b = CacheBuilder::<u64, u64, TransparentKeyBuilder<u64>>::new_with_key_builder(n, mc, TransparentKeyBuilder::<u64>::default())
-            .set_buffer_size(bs)
-            .set_hasher(HS::default());
-        match b.finalize() {
-            Err(CacheError::InvalidNumCounters) => vassert!(n == 0, "InvalidNumCounters iff num_counters is zero"),
-            Err(CacheError::InvalidMaxCost) => vassert!(n != 0 && mc == 0, "InvalidMaxCost iff max_cost is zero"),
-            Err(CacheError::InvalidBufferSize) => vassert!(n != 0 && mc != 0 && bs == 0, "InvalidBufferSize iff the insert buffer size is zero"),
-            _ => vassert!(false, "a zero num_counters / max_cost / buffer size is rejected with its specific error"),
-        }
-        vcover!(n == 0 && mc == 0, "two zero parameters");
-        vcover!(n != 0 && mc != 0 && bs == 0, "only the buffer size is zero");
-        vcover!(mc == 0 && n == 1, "max_cost zero");
+/// `which` fixes ONE parameter to a concrete zero so that the validation returns before the (for
+/// CBMC very expensive, and for Kani partly unexecutable) construction code; the other two
+/// parameters are arbitrary, zero included
+fn finalize_rejects(which: u8) {
+    let n = if which == 0 { 0 } else { nd::any_usize() };
+    let mc = if which == 1 { 0 } else { nd::any_i64() };
+    let bs = if which == 2 { 0 } else { nd::any_usize() };
+    let b = CacheBuilder::<u64, u64, TransparentKeyBuilder<u64>>::new_with_key_builder(n, mc, TransparentKeyBuilder::<u64>::default())
+        .set_buffer_size(bs)
+        .set_hasher(HS::default());
+    match b.finalize() {
+        Err(CacheError::InvalidNumCounters) => vassert!(n == 0, "InvalidNumCounters iff num_counters is zero"),
+        Err(CacheError::InvalidMaxCost) => vassert!(n != 0 && mc == 0, "InvalidMaxCost iff max_cost is zero (and num_counters is not)"),
+        Err(CacheError::InvalidBufferSize) => vassert!(n != 0 && mc != 0 && bs == 0, "InvalidBufferSize iff the insert buffer size is zero (and the others are not)"),
+        _ => vassert!(false, "a zero num_counters / max_cost / buffer size is rejected with its specific error"),
     }
+    vcover!(which == 0, "[n0] num_counters zero");
+    vcover!(which == 1 && n != 0, "[mc0] only max_cost zero");
+    vcover!(which == 1 && n == 0, "[mc0] both zero");
+    vcover!(which == 2 && n != 0 && mc != 0, "[bs0] only the buffer size zero");
 }
+
+macro_rules! finalize_harness {
+    ($name:ident, $which:expr) => {
+        cache_harness! {
+            [kani::unwind(6),
+             kani::stub(std::thread::spawn, spawn_stub),
+             kani::stub(std::collections::hash_map::RandomState::new, random_state_stub)]
+            fn $name() {
+                finalize_rejects($which);
+            }
+        }
+    };
+}
+finalize_harness!(c20_finalize_rejects_n0, 0);
+finalize_harness!(c20_finalize_rejects_mc0, 1);
+finalize_harness!(c20_finalize_rejects_bs0, 2);
 
 cache_harness! {
     [kani::unwind(6)]
